@@ -110,7 +110,8 @@ structure Crypto where
   ivOf : Bytes → Bytes
 
 /-- the laws of the primitives that the round-trip proofs use. -/
-structure Crypto.Laws (C : Crypto) (tagLen : Nat) : Prop where
+structure Crypto.Laws (C : Crypto) (tagLen macLen : Nat) : Prop where
+  mac_len : ∀ k m, (C.mac k m).length = macLen
   seal_len : ∀ k n ad p, (C.aseal k n ad p).length = p.length + tagLen
   open_seal : ∀ k n ad p, C.aopen k n ad (C.aseal k n ad p) = some p
   cbcEnc_len : ∀ k iv p, (C.cbcEnc k iv p).length = p.length
@@ -118,6 +119,8 @@ structure Crypto.Laws (C : Crypto) (tagLen : Nat) : Prop where
   xor_len : ∀ k o p, (C.xorStream k o p).length = p.length
   xor_invol : ∀ k o p, C.xorStream k o (C.xorStream k o p) = p
   rand_len : ∀ i n, (C.rand i n).length = n
+  /-- `trafficKey` returns a 12-byte IV (the XOR wrapper's `nonceMask`) -/
+  ivOf_len : ∀ s, (C.ivOf s).length = 12
 
 /-- one direction's cipher state (`halfConn`). -/
 structure Half where
@@ -391,15 +394,52 @@ def retryStep (C : Crypto) (c : Conn) : Step :=
     failWith .tooMany r.2 r.1
   else .next c1 []
 
+/-- the switch on the content type at the end of `readRecordOrCCS` (handshake complete, no
+ChangeCipherSpec expected). -/
+def dispatch (C : Crypto) (c3 : Conn) (typ : Nat) (data : Bytes) : Step :=
+  if typ = tAlert then
+    match data with
+    | [lvl, code] =>
+      if code.toNat = alertCloseNotify then failWith .eof c3 []
+      else if c3.p.s.vers = v13 then failWith (.remote code.toNat) c3 []
+      else if lvl.toNat = 1 then retryStep C c3
+      else if lvl.toNat = 2 then failWith (.remote code.toNat) c3 []
+      else failAlert C c3 alertUnexpectedMessage
+    | _ => failAlert C c3 alertUnexpectedMessage
+  else if typ = tCCS then
+    if data ≠ [1] then failAlert C c3 alertDecodeError
+    else failAlert C c3 alertUnexpectedMessage
+  else if typ = tApp then
+    if data = [] then retryStep C c3 else .next { c3 with input := data } []
+  else if typ = tHs then
+    if data = [] then failAlert C c3 alertUnexpectedMessage
+    else .next { c3 with hand := c3.hand ++ data } []
+  else failAlert C c3 alertUnexpectedMessage
+
+/-- `readRecordOrCCS` after a successful `decrypt`: `c1` is the connection with the record removed
+from `raw`. -/
+def afterDecrypt (C : Crypto) (c1 : Conn) (data : Bytes) (typ : Nat) (inn' : Half) : Step :=
+  let c2 := { c1 with inn := inn' }
+  if data.length > maxPlaintext then failAlert C c2 alertRecordOverflow
+  else
+    let c3 := if typ ≠ tAlert ∧ typ ≠ tCCS ∧ data.length > 0 then { c2 with retry := 0 } else c2
+    if c1.p.s.vers = v13 ∧ typ ≠ tHs ∧ c3.hand.length > 0 then failAlert C c3 alertUnexpectedMessage
+    else dispatch C c3 typ data
+
+/-- the record header at the start of `raw`: (version, length, bytes after the header). -/
+def parseHeader (raw : Bytes) : Option (Nat × Nat × Bytes) :=
+  match raw with
+  | _ :: va :: vb :: la :: lb :: rest => some (va.toNat * 256 + vb.toNat, la.toNat * 256 + lb.toNat, rest)
+  | _ => none
+
 /-- one pass of `readRecordOrCCS(false)` with the handshake complete: consumes one record. -/
 def readRecord (C : Crypto) (c : Conn) : Step :=
   match c.inErr with
   | some e => .fail e c []
   | none =>
-    match c.raw with
-    | _ :: va :: vb :: la :: lb :: rest =>
-      let vers := va.toNat * 256 + vb.toNat
-      let n := la.toNat * 256 + lb.toNat
+    match parseHeader c.raw with
+    | none => .short
+    | some (vers, n, rest) =>
       if vers ≠ wireVers c.p.s.vers then
         let r := sendAlert C c alertProtocolVersion
         failWith .version r.2 r.1
@@ -408,35 +448,9 @@ def readRecord (C : Crypto) (c : Conn) : Step :=
         failWith .oversized r.2 r.1
       else if rest.length < n then .short
       else
-        let record := c.raw.take (5 + n)
-        let c1 := { c with raw := c.raw.drop (5 + n) }
-        match decrypt C c.p.s c.inn record with
-        | .error a => failAlert C c1 a
-        | .ok (data, typ, inn') =>
-          let c2 := { c1 with inn := inn' }
-          if data.length > maxPlaintext then failAlert C c2 alertRecordOverflow
-          else
-            let c3 := if typ ≠ tAlert ∧ typ ≠ tCCS ∧ data.length > 0 then { c2 with retry := 0 } else c2
-            if c.p.s.vers = v13 ∧ typ ≠ tHs ∧ c3.hand.length > 0 then failAlert C c3 alertUnexpectedMessage
-            else if typ = tAlert then
-              match data with
-              | [lvl, code] =>
-                if code.toNat = alertCloseNotify then failWith .eof c3 []
-                else if c.p.s.vers = v13 then failWith (.remote code.toNat) c3 []
-                else if lvl.toNat = 1 then retryStep C c3
-                else if lvl.toNat = 2 then failWith (.remote code.toNat) c3 []
-                else failAlert C c3 alertUnexpectedMessage
-              | _ => failAlert C c3 alertUnexpectedMessage
-            else if typ = tCCS then
-              if data ≠ [1] then failAlert C c3 alertDecodeError
-              else failAlert C c3 alertUnexpectedMessage
-            else if typ = tApp then
-              if data = [] then retryStep C c3 else .next { c3 with input := data } []
-            else if typ = tHs then
-              if data = [] then failAlert C c3 alertUnexpectedMessage
-              else .next { c3 with hand := c3.hand ++ data } []
-            else failAlert C c3 alertUnexpectedMessage
-    | _ => .short
+        match decrypt C c.p.s c.inn (c.raw.take (5 + n)) with
+        | .error a => failAlert C { c with raw := c.raw.drop (5 + n) } a
+        | .ok (data, typ, inn') => afterDecrypt C { c with raw := c.raw.drop (5 + n) } data typ inn'
 
 /-- `for c.hand.Len() > 0 { handlePostHandshakeMessage() }`: every complete message in `hand` is
 handled; an incomplete one is left for the caller's loop to complete by reading more records (the
